@@ -258,3 +258,27 @@ Proof.
   - intros H. apply sct_vector_iff. apply sct_parse_sound; assumption.
   - apply sct_parse_inverse.
 Qed.
+
+(* ---- the RFC's lower bounds are NOT enforced -------------------------------------- *)
+(* SerializeSCTList accepts an empty list and empty elements; gen-certurl reaches
+   the first with a -sctDir that holds no *.sct file, the second with an empty file *)
+Theorem sct_rfc_floor_refuted :
+  (exists l bs, serialize_sct_list l = Ok bs /\ ~ SctVectorRfc bs l) /\
+  serialize_sct_list [] = Ok [0; 0] /\
+  serialize_sct_list [[]] = Ok [0; 2; 0; 0] /\
+  ~ SctVectorRfc [0; 0] [] /\ ~ SctVectorRfc [0; 2; 0; 0] [[]].
+Proof.
+  assert (H1 : ~ SctVectorRfc [0; 0] []) by (intros [_ [H _]]; apply H; reflexivity).
+  assert (H2 : ~ SctVectorRfc [0; 2; 0; 0] [[]]).
+  { intros [_ [_ H]]. inversion H as [|? ? Hs _]; subst. cbn [lenN] in Hs. lia. }
+  split; [exists [], [0; 0]; split; [reflexivity|exact H1]|].
+  repeat split; try reflexivity; assumption.
+Qed.
+
+(* with the floor as a precondition the output does meet the RFC definition *)
+Theorem sct_vector_rfc (l : list bytes) (bs : bytes) :
+  l <> [] -> Forall (fun s => 1 <= lenN s) l ->
+  serialize_sct_list l = Ok bs -> SctVectorRfc bs l.
+Proof.
+  intros Hne Hpos H. split; [apply sct_vector; exact H|]. split; assumption.
+Qed.
